@@ -19,6 +19,13 @@ Two code variants are modelled (`Variant`):
   `pubUnlocked = true`: it releases the mutex first (repaired).
 * `oneSnapshot = false`: `updateBest` reads every head twice (original); `true`: once (repaired).
 * `notifySwitch = false`: a switch of the best connection notifies nobody (original); `true`: repaired.
+* `timerOnce = false`: `WaitMasterchainSeqno` evaluates `time.After(timeout)` inside its loop, so every received head
+  below the target starts the timeout again (original); `true`: one timer armed when the wait begins (repaired).
+
+The timeout of a waiter is STATE (round 4): `timer = armed` from the moment the waiter enters its select; the
+environment action `wDeadline` (the timeout has elapsed) makes it `due`; only then can the waiter's select take the
+timer case (`wFire`). Context cancellation (`wCancel`) is an environment action enabled whenever the waiter is in its
+select.
 
 `updateBest` is modelled read by read (round 2; no abstraction of the choice): under the write lock the first loop
 reads `MasterHead()` of every member in order (each read needs that member's mutex) — `ubRead`; the selection loop
@@ -38,12 +45,13 @@ structure Variant where
   pubUnlocked : Bool
   oneSnapshot : Bool := true
   notifySwitch : Bool := true
+  timerOnce : Bool := true
   deriving DecidableEq, Repr
 
 /-- the code as originally written -/
-def orig : Variant := ⟨false, false, false, false⟩
+def orig : Variant := ⟨false, false, false, false, false⟩
 /-- the repaired code -/
-def fixed : Variant := ⟨true, true, true, true⟩
+def fixed : Variant := ⟨true, true, true, true, true⟩
 
 /-- capacity of `masterHeadUpdatedCh` -/
 def updCap : Nat := 10
@@ -85,6 +93,13 @@ inductive WRes where
   | panic
   deriving DecidableEq, Repr, Inhabited
 
+/-- the timeout of a waiter: not started, running, elapsed (its channel is ready) -/
+inductive Timer where
+  | off
+  | armed
+  | due
+  deriving DecidableEq, Repr, Inhabited
+
 /-- program counter of a `WaitMasterchainSeqno` caller -/
 inductive WPc where
   /-- at `p.mu.Lock()` of subscribe (not arrived yet, or blocked) -/
@@ -107,7 +122,8 @@ structure Waiter where
   wid : Nat := 0
   /-- ghost: every head received from the channel, newest first -/
   received : List Nat := []
-  /-- ghost: timer expired or context cancelled -/
+  timer : Timer := .off
+  /-- ghost: the select took the timer case or the context was cancelled -/
   fired : Bool := false
   /-- ghost: the largest head notifySubscribers has offered to this waiter's channel -/
   offered : Option Nat := none
@@ -170,7 +186,9 @@ inductive Action where
   | wLock (i : Nat)
   | wSub (i : Nat)
   | wRecv (i : Nat)
+  | wDeadline (i : Nat)
   | wFire (i : Nat)
+  | wCancel (i : Nat)
   | wUnsub (i : Nat)
   | sLock (j : Nat)
   | sSend (j : Nat)
@@ -178,10 +196,12 @@ inductive Action where
   | setRtt (c : Nat) (r : Int)
   deriving DecidableEq, Repr, Inhabited
 
-/-- environment actions: the ticker, a waiter's timer / context, liveness and round-trip time of a member -/
+/-- environment actions: the ticker, a waiter's timeout elapsing / its context being cancelled, liveness and
+round-trip time of a member. (`wFire`, the select taking the ready timer case, is the waiter's own step.) -/
 def Action.isEnv : Action → Bool
   | .tick => true
-  | .wFire _ => true
+  | .wDeadline _ => true
+  | .wCancel _ => true
   | .setAlive _ _ => true
   | .setRtt _ _ => true
   | _ => false
@@ -287,10 +307,10 @@ def step (v : Variant) (s : State) : Action → Option State
           if connFree s c then
             let hd := s.heads.getD c 0
             if x.target ≤ hd then
-              some { (s.setW i { x with pc := .sel, buf := [hd], wid := 0 }) with
+              some { (s.setW i { x with pc := .sel, buf := [hd], wid := 0, timer := .armed }) with
                 rw := .free, log := s.log ++ [(i, c, hd)] }
             else
-              some { (s.setW i { x with pc := .sel, wid := s.nextId + 1 }) with
+              some { (s.setW i { x with pc := .sel, wid := s.nextId + 1, timer := .armed }) with
                 rw := .free, nextId := s.nextId + 1, waitList := s.waitList ++ [(s.nextId + 1, i)] }
           else none
       else none
@@ -301,11 +321,19 @@ def step (v : Variant) (s : State) : Action → Option State
         match x.buf with
         | h :: rest =>
           some (s.setW i { x with buf := rest, received := h :: x.received,
-                                  pc := if x.target ≤ h then .leave .ok else .sel })
+                                  pc := if x.target ≤ h then .leave .ok else .sel,
+                                  timer := if v.timerOnce then x.timer else .armed })
         | [] => none
       else none
     | none => none
+  | .wDeadline i => match s.waiters[i]? with
+    | some x => if x.pc = .sel ∧ x.timer = .armed then some (s.setW i { x with timer := .due }) else none
+    | none => none
   | .wFire i => match s.waiters[i]? with
+    | some x =>
+      if x.pc = .sel ∧ x.timer = .due then some (s.setW i { x with pc := .leave .err, fired := true }) else none
+    | none => none
+  | .wCancel i => match s.waiters[i]? with
     | some x => if x.pc = .sel then some (s.setW i { x with pc := .leave .err, fired := true }) else none
     | none => none
   | .wUnsub i => match s.waiters[i]? with
@@ -361,17 +389,18 @@ def mkInit (heads : List Nat) (best : Option Nat) (targets : List Nat) (pubs : L
 /-- candidate actions of a state (every action that can possibly be enabled is among them, `step_some_mem`) -/
 def allActions (s : State) : List Action :=
   [.tick, .ubLock, .ubRead, .ubSel, .ubSet, .recv, .nRLock, .nCheck, .nPut, .nDone]
-  ++ (List.range s.waiters.length).flatMap (fun i => [.nSend i, .nDrain i, .wLock i, .wSub i, .wRecv i, .wFire i, .wUnsub i])
+  ++ (List.range s.waiters.length).flatMap (fun i => [.nSend i, .nDrain i, .wLock i, .wSub i, .wRecv i, .wDeadline i, .wFire i, .wCancel i, .wUnsub i])
   ++ (List.range s.setters.length).flatMap (fun j => [.sLock j, .sSend j])
 
 def enabledActions (v : Variant) (s : State) : List Action :=
   (allActions s).filter (fun a => (step v s a).isSome)
 
-/-- every thread is finished or parked in its select on an empty channel: only the environment can make anything
-happen (a ticker tick, a timer, a cancellation, a new head from the network) -/
+/-- every thread is finished or parked in its select on an empty channel with its timeout not yet elapsed: only the
+environment can make anything happen (a ticker tick, a timeout elapsing, a cancellation, a new head) -/
 def quiescent (s : State) : Bool :=
   s.run == .idle && s.upd.isEmpty &&
-  s.waiters.all (fun w => (w.pc == .sel && w.buf.isEmpty) || match w.pc with | .done _ => true | _ => false) &&
+  s.waiters.all (fun w => (w.pc == .sel && w.buf.isEmpty && w.timer != .due) ||
+    match w.pc with | .done _ => true | _ => false) &&
   s.setters.all (fun x => x.pc == .done)
 
 /-- nothing at all can happen (not even an environment action) although some thread has not finished -/
